@@ -120,8 +120,15 @@ func (m *Mutex) Unlock() {
 // RWMutex: w == -1 writer, n>0 readers
 type RWMutex struct {
 	w    int32
+	ww   int32 // writers that have called Lock and not acquired yet: like sync.RWMutex, they block new readers
 	real sync.RWMutex
 }
+
+//go:norace
+func (m *RWMutex) addWW(d int32) { m.ww += d }
+
+//go:norace
+func (m *RWMutex) getWW() int32 { return m.ww }
 
 //go:norace
 func (m *RWMutex) word() *int32 { return &m.w }
@@ -136,7 +143,14 @@ func (m *RWMutex) set(v int32) { m.w = v }
 func (m *RWMutex) get() int32 { return m.w }
 
 func (m *RWMutex) Lock() {
-	vsched.BlockRW(m.word(), true)
+	// a writer first announces itself (from then on new readers wait behind it), then waits for the lock
+	vsched.PointOp(vsched.OpLock)
+	if vsched.Aborting() {
+		return
+	}
+	m.addWW(1)
+	vsched.BlockRW2(m.word(), &m.ww, true)
+	m.addWW(-1)
 	if vsched.Aborting() {
 		return
 	}
@@ -172,7 +186,7 @@ func (m *RWMutex) Unlock() {
 }
 
 func (m *RWMutex) RLock() {
-	vsched.BlockRW(m.word(), false)
+	vsched.BlockRW2(m.word(), &m.ww, false)
 	if vsched.Aborting() {
 		return
 	}
@@ -185,7 +199,7 @@ func (m *RWMutex) RLock() {
 
 func (m *RWMutex) TryRLock() bool {
 	vsched.PointOp(vsched.OpTryLock)
-	if vsched.Aborting() || m.get() < 0 {
+	if vsched.Aborting() || m.get() < 0 || m.getWW() > 0 {
 		return false
 	}
 	m.add(1)
@@ -282,9 +296,14 @@ type Pool struct {
 func (p *Pool) register() {
 	if !p.reg {
 		p.reg = true
-		vsched.RegisterReset(func() { p.mu.Lock(); p.items = nil; p.mu.Unlock() })
+		vsched.RegisterResetOnce(p.reset)
 	}
 }
+
+// reset runs between two executions, on the orchestrator (no managed thread is running).
+//
+//go:norace
+func (p *Pool) reset() { p.items, p.reg = nil, false }
 
 func (p *Pool) Get() any {
 	p.mu.Lock()
